@@ -1,0 +1,1 @@
+//! Hooks for property C09 (empty unless needed).
